@@ -204,3 +204,88 @@ def udp_sequences(pkts):
         if p.proto == 17 and p.payload:
             out[flow_key(p)].append((p.src, p.sport, p.dst, p.dport, p.payload, p.ts))
     return out
+
+
+class Analysis:
+    """Everything the output oracle derives from one output file.
+
+    errors : structural problems (what C06 forbids) - file level, frame level, TCP conversation level
+    pkts   : every packet that could be parsed (lenient), in file order
+    tcp    : {(src, sport, dst, dport): bytes} payload concatenation per direction in file order (lenient view)
+    udp    : {(src, sport, dst, dport): [(ts, payload)]} non-empty datagrams per direction in file order
+    """
+
+    def __init__(self, buf):
+        self.errors = []
+        self.pkts = []
+        self.tcp = {}
+        self.udp = {}
+        self.order = []       # [(proto, dirkey, ts, payload)] payload-bearing packets in file order
+        self.nframes = 0
+        if buf is None:
+            self.errors.append("no output file")
+            return
+        try:
+            frames = read_pcapng(buf)
+        except Malformed as e:
+            self.errors.append(f"pcapng: {e}")
+            try:
+                frames = read_pcapng_lenient(buf)
+            except Exception:
+                frames = []
+        except Exception as e:   # struct.error etc.
+            self.errors.append(f"pcapng: {e!r}")
+            frames = []
+        self.nframes = len(frames)
+        for i, (ts, fr) in enumerate(frames):
+            try:
+                p = parse_frame(ts, fr)
+            except Malformed as e:
+                self.errors.append(f"packet {i}: {e}")
+                continue
+            except Exception as e:
+                self.errors.append(f"packet {i}: {e!r}")
+                continue
+            self.pkts.append(p)
+            d = (p.src, p.sport, p.dst, p.dport)
+            if p.proto == 6:
+                self.tcp.setdefault(d, b"")
+                self.tcp.setdefault((p.dst, p.dport, p.src, p.sport), b"")
+                if p.payload:
+                    self.tcp[d] += p.payload
+                    self.order.append((6, d, p.ts, p.payload))
+            elif p.proto == 17 and p.payload:
+                self.udp.setdefault(d, []).append((p.ts, p.payload))
+                self.order.append((17, d, p.ts, p.payload))
+        try:
+            strict = tcp_streams(self.pkts)
+            for k, v in strict.items():
+                if self.tcp.get(k, b"") != v:
+                    self.errors.append(f"tcp {k[1]}->{k[3]}: strict reassembly differs from file-order concatenation")
+        except Malformed as e:
+            self.errors.append(f"tcp: {e}")
+
+    def tcp_stream(self, src, sport, dst, dport):
+        return self.tcp.get((src, sport, dst, dport))
+
+    def tcp_flows(self):
+        return sorted({flow_key(p) for p in self.pkts if p.proto == 6})
+
+
+def read_pcapng_lenient(buf):
+    """best effort: walk blocks, skip what cannot be read"""
+    out = []
+    off = 0
+    e = "<"
+    while off + 12 <= len(buf):
+        if buf[off:off + 4] == b"\x0a\x0d\x0d\x0a":
+            e = "<" if buf[off + 8:off + 12] == b"\x4d\x3c\x2b\x1a" else ">"
+        btype, blen = struct.unpack_from(e + "II", buf, off)
+        if blen < 12 or off + blen > len(buf):
+            break
+        body = buf[off + 8:off + blen - 4]
+        if btype == 6 and len(body) >= 20:
+            iface, th, tl, caplen, plen = struct.unpack_from(e + "IIIII", body)
+            out.append((((th << 32) | tl), bytes(body[20:20 + caplen])))
+        off += blen + (-blen) % 4
+    return out
